@@ -515,6 +515,12 @@ func c10Oracle(r *rand.Rand, rep *runReport, n int, cw *caseWriter, nextID *int)
 		}
 	})
 	_ = os.RemoveAll(base)
+	if n >= 1000 {
+		c10CRLFSweep(r, rep, 1100)
+		c10CRLFSweep(r, rep, 1100)
+	} else {
+		c10CRLFSweep(r, rep, 560)
+	}
 	for i := 0; i < ncorpus && i < len(pairs); i++ {
 		// the stored witnesses of the known findings are re-checked on every run
 		if len(pairs[i].Diffs) == 0 {
@@ -568,6 +574,68 @@ func c10Oracle(r *rand.Rand, rep *runReport, n int, cw *caseWriter, nextID *int)
 			rep.sample(p)
 		}
 	}
+}
+
+// c10CRLFSweep: stratum "CRLF files, payload-length sweep across the read-chunk boundaries". One CRLF rule file of > 1 KB with an
+// ignore/begin..end block near the top (three excluded lines, each shorter than yaml's comment lookahead so that class
+// C10-long-blanked-line is not entered) and, below it, rules followed by two-line `# pint disable` comment blocks and flow
+// mappings followed by a comment line (the places where yaml.v3 attaches comments differently for CRLF). The total payload
+// length is swept over `span` consecutive values, which moves every 512-byte boundary of the stream across every byte of the
+// lines below the block; each variant is compared with the reference (shortest payload) by the in-process parser (strict and
+// relaxed). Same number of lines, only excluded text differs: the results must be equal.
+func c10CRLFSweep(r *rand.Rand, rep *runReport, span int) {
+	var body []string
+	body = append(body, "groups:", "- name: g0", "  rules:")
+	nr := 10 + r.Intn(6)
+	for k := 0; k < nr; k++ {
+		if k%2 == 0 {
+			body = append(body, fmt.Sprintf("  - alert: Alert%d", k), "    expr: up == 0", fmt.Sprintf("    for: %dm", 1+r.Intn(9)))
+			if r.Intn(2) == 0 {
+				body = append(body, "    labels: {team: a}", "    # pint disable alerts/comparison")
+			} else {
+				body = append(body, "    annotations:", "      summary: down")
+			}
+		} else {
+			body = append(body, fmt.Sprintf("  - record: job:rec%d:sum", k), "    expr: sum(up) by (job)")
+		}
+		body = append(body, "    # pint disable promql/series", "    # pint disable alerts/for")
+		if r.Intn(3) == 0 {
+			body = append(body, "")
+		}
+	}
+	mk := func(total int) string {
+		l1 := min(total/3, 400)
+		l2 := min((total-l1)/2, 400)
+		l3 := min(total-l1-l2, 400)
+		ls := []string{"# pint file/owner bob", "# pint ignore/begin", strings.Repeat("{", l1), strings.Repeat("%", l2), strings.Repeat("}", l3), "# pint ignore/end"}
+		ls = append(ls, body...)
+		return strings.Join(ls, "\r\n") + "\r\n"
+	}
+	base := 3
+	ref := mk(base)
+	refT := map[bool]string{}
+	for _, strict := range []bool{true, false} {
+		t, cr := c10ParseProj(ref, strict)
+		refT[strict] = c10JSON(t) + cr
+	}
+	nfail := 0
+	for total := base + 1; total <= base+span; total++ {
+		v := mk(total)
+		rep.hist("oracle:crlf-length-sweep")
+		for _, strict := range []bool{true, false} {
+			t, cr := c10ParseProj(v, strict)
+			if got := c10JSON(t) + cr; got != refT[strict] {
+				nfail++
+				if nfail <= 5 {
+					p := c10Pair{Kind: "replace", Form: []int{2}, A: ref, B: v}
+					rep.fail(fmt.Sprintf("oracle-crlf-sweep-%d", total), fmt.Sprintf("C10 replace: CRLF files differing only in the length of text between ignore/begin and ignore/end "+
+						"(%d vs %d bytes in three lines) give different results: parser(strict=%v): %s", base, total, strict, c10FirstDiff(refT[strict], got)), p)
+				}
+				break
+			}
+		}
+	}
+	rep.count("oracle:crlf-sweep:"+ref, true)
 }
 
 // c10ColumnMoved: known-finding class C10-directive-column — the replacement changed the byte length of the excluded text
